@@ -79,7 +79,7 @@ CgreenVector *create_vector_of_double_markers_for(const char *parameters) {
     while (token < parameters_end) {
         token = skip_nulls_until(token, parameters_end);
         int length_of_token = strlen(token);
-        if (begins_with(token, "box_double"))
+        if (begins_with(token, "box_double("))
             cgreen_vector_add(markers, pointer_to_bool(true));
         else
             cgreen_vector_add(markers, pointer_to_bool(false));
